@@ -217,7 +217,7 @@ class Gen:
             elif k < .72 and d > 0 and self.opts['loops']:
                 self.use('for_range')
                 i = self.fresh('i')
-                out.append('%sfor %s in range(%s):' % (ind, i, r.choice(['3', '4', '(%s & 3)' % self.atom(INT, env)])))
+                out.append('%sfor %s in range(%s):' % (ind, i, r.choice(['3', '4', '(%s & 3)' % self.atom(INT, env), '%s & 3' % self.atom(INT, env)])))
                 self.readonly.add(i)  # loop variable readable, not assignable
                 body = self.block({**env, i: INT}, ret, d - 1, ind + '\t', True)
                 out.extend(body)
@@ -427,7 +427,10 @@ class Gen:
         methods = []
         for _ in range(r.randint(1, 2)):
             out.append('')
-            body, mname, params, rt = self.function('\t', self.fresh('m'), fields)
+            # some methods carry the name of a list / dict / str method (call sites are specialised by receiver type, not by name)
+            taken = [m[0] for m in methods]
+            libname = [n for n in ['pop', 'insert', 'copy', 'sort', 'extend', 'get', 'keys', 'values', 'append', 'find', 'count', 'index'] if n not in taken]
+            body, mname, params, rt = self.function('\t', r.choice(libname) if r.random() < .3 else self.fresh('m'), fields)
             out.extend(body)
             methods.append((mname, params, rt))
             self.use('method')
